@@ -145,7 +145,7 @@ func (e *Exec) scenarioShape(path string, t types.Type, a string) ([]altFn, bool
 				tagSlice = SliceV{Arr: ar, Len_: len(tags), Cap: len(tags)}
 			}
 			strFn := types.NewSignatureType(nil, nil, nil, types.NewTuple(types.NewVar(0, nil, "", types.Typ[types.String])), nil, false)
-			cfg := mkStruct(cfgT, map[string]Val{"Tags": tagSlice, "OnlyModels": mkVar("g.config.OnlyModels", SBool), "MinSizedInts": mkVar("g.config.MinSizedInts", SBool), "Warner": Opaque{Tag: "config.Warner", Typ: strFn}})
+			cfg := mkStruct(cfgT, map[string]Val{"Tags": tagSlice, "OnlyModels": mkVar("g.config.OnlyModels", SBool), "MinSizedInts": mkVar("g.config.MinSizedInts", SBool), "StructNameFromTitle": mkVar("g.config.StructNameFromTitle", SBool), "Warner": Opaque{Tag: "config.Warner", Typ: strFn}})
 			fr := s.alloc(zeroVal(fileT))
 			delete(s.Fresh, fr.Cell)
 			s.CellTypes[fr.Cell] = fileT
@@ -184,7 +184,13 @@ func (e *Exec) scenarioShape(path string, t types.Type, a string) ([]altFn, bool
 				schT := w.namedType("pkg/schemas", "Schema")
 				dm := s.alloc(&MapAgg{Tag: "schema.Definitions"})
 				delete(s.Fresh, dm.Cell)
-				sr := s.alloc(mkStruct(schT, map[string]Val{"ID": atom("schema.ID"), "Definitions": MapV{Cell: dm.Cell}}))
+				// the generator's own document has a title (so a name taken from the WRONG
+				// document under --struct-name-from-title shows)
+				ownRootT := w.namedType("pkg/schemas", "Type")
+				ownRoot := s.alloc(mkStruct(ownRootT, map[string]Val{"Title": lit("Own title")}))
+				delete(s.Fresh, ownRoot.Cell)
+				s.CellTypes[ownRoot.Cell] = ownRootT
+				sr := s.alloc(mkStruct(schT, map[string]Val{"ID": atom("schema.ID"), "Definitions": MapV{Cell: dm.Cell}, "ObjectAsType": ownRoot}))
 				delete(s.Fresh, sr.Cell)
 				s.CellTypes[sr.Cell] = schT
 				om := s.alloc(&MapAgg{Tag: "outputs", Keys: []Val{atom("schema.ID")}, Vals: []Val{or}})
@@ -681,6 +687,17 @@ func (w *World) codegenType(s *State, kind, arg string) Val {
 			"Type": Iface{Dyn: types.NewPointer(mpT), V: allocIn(mkStruct(mpT, map[string]Val{"KeyType": prim("string"), "ValueType": Iface{Dyn: eiT, V: zeroVal(eiT)}}), mpT)}})
 		var fs []Val
 		switch arg {
+		case "deffield":
+			// one string field with a default AND a length constraint, one without default
+			mk := func(name, json string, def bool) Val {
+				sc := allocIn(mkStruct(scT, map[string]Val{"MinLength": mkInt(2)}), scT)
+				f := map[string]Val{"Name": lit(name), "JSONName": lit(json), "Type": prim("string"), "SchemaType": sc}
+				if def {
+					f["DefaultValue"] = Iface{Dyn: types.Typ[types.String], V: lit("dflt")}
+				}
+				return mkStruct(sfT, f)
+			}
+			fs = []Val{mk("D", "d", true), mk("N", "n", false)}
 		case "plain":
 			fs = []Val{plain}
 		case "addl":
@@ -693,7 +710,7 @@ func (w *World) codegenType(s *State, kind, arg string) Val {
 		arr := s.alloc(&Agg{Elems: fs})
 		delete(s.Fresh, arr.Cell)
 		stFields := map[string]Val{"Fields": SliceV{Arr: arr, Len_: len(fs), Cap: len(fs)}}
-		if arg != "addl" {
+		if arg != "addl" && arg != "deffield" {
 			rq := s.alloc(&Agg{Elems: []Val{lit("x")}})
 			delete(s.Fresh, rq.Cell)
 			stFields["RequiredJSONFields"] = SliceV{Arr: rq, Len_: 1, Cap: 1}
